@@ -90,6 +90,15 @@ pub trait SVDDecomposableMatrix<T: RealNumber>: BaseMatrix<T> {
 
         let (m, n) = U.shape();
 
+        // quantities are negligible relative to the magnitude of the input, not in absolute terms
+        let mut tiny = T::zero();
+        for i in 0..m {
+            for j in 0..n {
+                tiny = tiny.max(U.get(i, j).abs());
+            }
+        }
+        tiny = tiny * T::epsilon();
+
         let (mut l, mut nm) = (0usize, 0usize);
         let (mut anorm, mut g, mut scale) = (T::zero(), T::zero(), T::zero());
 
@@ -109,7 +118,7 @@ pub trait SVDDecomposableMatrix<T: RealNumber>: BaseMatrix<T> {
                     scale += U.get(k, i).abs();
                 }
 
-                if scale.abs() > T::epsilon() {
+                if scale.abs() > tiny {
                     for k in i..m {
                         U.div_element_mut(k, i, scale);
                         s += U.get(k, i) * U.get(k, i);
@@ -145,7 +154,7 @@ pub trait SVDDecomposableMatrix<T: RealNumber>: BaseMatrix<T> {
                     scale += U.get(i, k).abs();
                 }
 
-                if scale.abs() > T::epsilon() {
+                if scale.abs() > tiny {
                     for k in l - 1..n {
                         U.div_element_mut(i, k, scale);
                         s += U.get(i, k) * U.get(i, k);
@@ -213,7 +222,7 @@ pub trait SVDDecomposableMatrix<T: RealNumber>: BaseMatrix<T> {
                 U.set(i, j, T::zero());
             }
 
-            if g.abs() > T::epsilon() {
+            if g != T::zero() {
                 g = T::one() / g;
                 for j in l..n {
                     let mut s = T::zero();
@@ -327,7 +336,7 @@ pub trait SVDDecomposableMatrix<T: RealNumber>: BaseMatrix<T> {
 
                     z = f.hypot(h);
                     w[j] = z;
-                    if z.abs() > T::epsilon() {
+                    if z != T::zero() {
                         z = T::one() / z;
                         c = f * z;
                         s = h * z;
